@@ -2,6 +2,7 @@ package zzverifsim
 
 import (
 	"fmt"
+	"reflect"
 	"sort"
 	"unsafe"
 )
@@ -49,6 +50,12 @@ type shadow struct {
 	hasW  bool
 	reads []epoch
 	isMap bool
+
+	// atomic accesses: they never conflict with each other, but an atomic store conflicts
+	// with an unordered plain access and an atomic load with an unordered plain store
+	aw     epoch
+	hasAW  bool
+	areads []epoch
 }
 
 type raceState struct {
@@ -158,10 +165,20 @@ func (r *raceState) access(s *Sim, t *Task, p unsafe.Pointer, write bool, pos st
 		r.report(s, sh.w, true, t, pos, write, isMap)
 	}
 
+	if sh.hasAW && !r.ordered(sh.aw, t) {
+		r.report(s, sh.aw, true, t, pos, write, isMap)
+	}
+
 	me := epoch{tid: t.idx, clk: t.clock[t.idx], pos: pos}
 
 	if write {
 		for _, rd := range sh.reads {
+			if !r.ordered(rd, t) {
+				r.report(s, rd, false, t, pos, true, isMap)
+			}
+		}
+
+		for _, rd := range sh.areads {
 			if !r.ordered(rd, t) {
 				r.report(s, rd, false, t, pos, true, isMap)
 			}
@@ -211,15 +228,57 @@ func AccessMap(p unsafe.Pointer, write bool, pos string) {
 	s.race.access(s, s.cur, p, write, pos, true)
 }
 
-// Atomic records a sync/atomic operation: acquire + release on the address.
-func Atomic(p unsafe.Pointer) {
+// Atomic records a sync/atomic operation: it is checked against unordered plain accesses of the
+// same address (mixing atomic and plain access is a data race), then acts as acquire + release.
+func Atomic(p unsafe.Pointer, store bool, pos string) {
 	s := cur()
-	if s == nil || s.race == nil || s.cur == nil {
+	if s == nil || s.race == nil || s.cur == nil || p == nil {
 		return
 	}
 
-	s.race.acquire(s.cur, p)
-	s.race.release(s.cur, p)
+	t := s.cur
+	r := s.race
+	r.acquire(t, p)
+
+	sh := r.shadow[p]
+	if sh == nil {
+		sh = &shadow{}
+		r.shadow[p] = sh
+	}
+
+	t.tickIfZero()
+
+	if sh.hasW && !r.ordered(sh.w, t) {
+		r.report(s, sh.w, true, t, pos, store, false)
+	}
+
+	me := epoch{tid: t.idx, clk: t.clock[t.idx], pos: pos}
+
+	if store {
+		for _, rd := range sh.reads {
+			if !r.ordered(rd, t) {
+				r.report(s, rd, false, t, pos, true, false)
+			}
+		}
+
+		sh.aw, sh.hasAW = me, true
+		sh.areads = sh.areads[:0]
+	} else {
+		found := false
+
+		for i := range sh.areads {
+			if sh.areads[i].tid == t.idx {
+				sh.areads[i] = me
+				found = true
+			}
+		}
+
+		if !found {
+			sh.areads = append(sh.areads, me)
+		}
+	}
+
+	r.release(t, p)
 }
 
 // SyncOp records an operation on a synchronising object (sync.Map): acquire + release.
@@ -283,10 +342,35 @@ func MW[K comparable, V any](m map[K]V, pos string) map[K]V {
 }
 
 // AtomicPtr records a sync/atomic operation on *p and returns p.
-func AtomicPtr[T any](p *T) *T {
-	Atomic(unsafe.Pointer(p))
+func AtomicPtr[T any](p *T, store bool, pos string) *T {
+	Atomic(unsafe.Pointer(p), store, pos)
 
 	return p
+}
+
+// ReadAll records a plain read of every field of the struct v points to (v may be an interface
+// holding such a pointer) and returns v: it models code that copies or reflects over a whole
+// entry, e.g. encoding/gob in Dump or a value-receiver method called through the pointer.
+func ReadAll(v interface{}, pos string) interface{} {
+	s := cur()
+	if s == nil || s.race == nil || s.cur == nil || v == nil {
+		return v
+	}
+
+	rv := reflect.ValueOf(v)
+	if rv.Kind() != reflect.Ptr || rv.IsNil() || rv.Elem().Kind() != reflect.Struct {
+		return v
+	}
+
+	el := rv.Elem()
+	for i := 0; i < el.NumField(); i++ {
+		f := el.Field(i)
+		if f.CanAddr() {
+			Access(unsafe.Pointer(f.UnsafeAddr()), false, pos+":"+el.Type().Field(i).Name)
+		}
+	}
+
+	return v
 }
 
 // stable strips "file:line|" from an access label, leaving "Type.Func:field" which does not
